@@ -364,7 +364,9 @@ func join(a, b context, node parse.Node, nodeName string) context {
 	// contents of a are always returned.
 	a.element.names = joinNames(a.element.name, b.element.name, a.element.names, b.element.names)
 	a.attr.names = joinNames(a.attr.name, b.attr.name, a.attr.names, b.attr.names)
-	if a.attr.value != b.attr.value {
+	if a.attr.value != b.attr.value || b.attr.ambiguousValue {
+		// The value is also ambiguous if it already was in the branch whose context is dropped: an
+		// action in a link's rel attribute or an inner conditional may have marked only b.
 		a.attr.ambiguousValue = true
 	}
 	if b.attr.dynamicStart {
